@@ -12,10 +12,13 @@ META = {
     "level_text": "props/C08.v: for any stream of requests with distinct numbers and ANY outcome of serving each (malformed request, arguments that cannot be decoded, unknown "
                   "handler, handler failure, result or exception record the serializer rejects while encoding) every request gets exactly one response frame with its own number, "
                   "its handler runs at most once and nothing escapes the serving loop — provided the generated facts say each step sits inside the guarded region and the answer's "
-                  "encoding is guarded; the refutations are proved for a tree where it is not (finding F2). Requester side over any history: registered numbers distinct, a response "
+                  "encoding is guarded; the refutations are proved for a tree where it is not (finding F2). One stated exclusion: a handler raising SystemExit/KeyboardInterrupt on a "
+                  "connection whose configuration marks that class for local propagation is NOT answered (c08_marked_exception_refuted; the default configuration marks "
+                  "KeyboardInterrupt: known finding F26). A response whose payload cannot be decoded by the requester is outside the model (see C09's F10). Requester side over any history: registered numbers distinct, a response "
                   "invokes exactly its own callback and removes it, answered numbers stay unknown, a failed send unregisters. The facts are regenerated from _dispatch_request / "
                   "_dispatch / _seq_request_callback / _async_request on every run; real request streams (sync, async up to 16 outstanding, nested, raw malformed) are checked "
-                  "against a frame ledger and against the extracted model.",
+                  "against a frame ledger and against the extracted model; returned values and exception classes are compared with what each request's own handler produced; "
+                  "the requester-side histories (including unsolicited and duplicate responses, failed sends) run on a real Connection.",
     "level_note": "Trusted: Coq kernel, pygen, extraction+driver, harness (in-memory streams, frame tap, reference codec). The outcome of a handler and whether a value encodes are "
                   "oracles in the theorems (the latter is C04's dump). A message that cannot be decoded at all has no number to answer. Multi-threaded serving is C12/C13.",
     "technique": "Coq proof by induction over request streams with universally quantified outcome oracles; generated guarded-region facts select theorem vs refutation; ledger-based differential run",
@@ -53,6 +56,7 @@ class Srv(rpyc.Service):
     def exposed_boombig2(self, key): self._hit(key); raise NeedsArg(BIG)
     def exposed_odd(self, key): self._hit(key); raise Odd("not an Exception subclass", key)
     def exposed_genexit(self, key): self._hit(key); raise GeneratorExit()
+    def exposed_raise_(self, key, name): self._hit(key); raise {"KeyboardInterrupt": KeyboardInterrupt, "SystemExit": SystemExit}[name]("from the handler")
 
 
 class Odd(BaseException):
@@ -73,17 +77,18 @@ def gen_facts():
     try:
         txt = open(C.COQ + "/gen/Gen_dispatch.v").read()
         f = dict(re.findall(r"Definition (\w+) : bool := (true|false)\.", txt))
-        return [f.get(k) == "true" for k in ("unpack_in_try", "unbox_in_try", "handler_in_try", "reply_encode_guarded", "exc_encode_guarded")]
+        return [f.get(k) == "true" for k in ("unpack_in_try", "unbox_in_try", "handler_in_try", "reply_encode_guarded", "exc_encode_guarded", "reraises_marked")]
     except OSError:
-        return [True] * 5
+        return [True] * 6
 
 
 class Bench:
     """client Connection <-> serving Connection over MemStreams with a frame tap; the server is pumped like serve_all would"""
 
-    def __init__(self):
+    def __init__(self, server_config=None):
         self.sc, self.ss = MemStream.pair("cli", "srv")
         self.ledger = []
+        self.want = {}
         self.buf = {"cli": bytearray(), "srv": bytearray()}
 
         def tap(name, data):
@@ -103,7 +108,7 @@ class Bench:
         self.sc.tap = tap
         self.ss.tap = tap
         self.srv_service = Srv()
-        self.server = Connection(self.srv_service, Channel(self.ss), config={})
+        self.server = Connection(self.srv_service, Channel(self.ss), config=dict(server_config or {}))
         self.client = Connection(Cli(), Channel(self.sc), config={"sync_request_timeout": 5})
         self.crashes = []
 
@@ -189,13 +194,17 @@ def run_stream(ctx, r, n_ops):
             if kind == "val":
                 from harness.C04 import gen_value
                 v = gen_value(r, 1, allow_other=False)
+                b.want[key] = ("val", v)
                 call, oc = (lambda k=key, v=v: root.val(k, v)), [3, True]
                 acall = (rpyc.async_(root.val), (key, v))
             elif kind == "nested":
+                b.want[key] = ("eq", 2 * key + 1)
                 call, oc = (lambda k=key: root.nested(k, lambda x: x * 2)), [3, True]
                 acall = (rpyc.async_(root.nested), (key, lambda x: x * 2))
             else:
                 oc = {"ref": [3, True], "boom": [4, True], "big": [3, False], "bigtuple": [3, False], "boombig": [4, False], "boombig2": [4, False], "stop": [4, True], "odd": [4, True], "genexit": [4, True]}[kind]
+                if kind == "ref":
+                    b.want[key] = ("list", [key])
                 call = (lambda k=key, m=kind: getattr(root, m)(k))
                 acall = (rpyc.async_(getattr(root, kind)), (key,))
         except EOFError:
@@ -266,6 +275,21 @@ def check_stream(ctx, model, b, expect, raw_reqs, usable, case):
         if res[0] == "EOFError" and not b.crashes and not b.server.closed:
             ctx.violation("requester-got-EOFError", case, observed=res, expected="value or exception", what="requester saw EOFError although the peer is up")
         want_exc = oc[0] == 4 or (oc[0] == 3 and not oc[1])
+        if res[0] == "value" and not want_exc and key in b.want:
+            how, w = b.want[key]
+            try:
+                from harness.C04 import canon
+                same = (canon(res[1]) == canon(w)) if how == "val" else (list(res[1]) == w if how == "list" else res[1] == w)
+            except Exception as e:
+                same = "comparison raised " + type(e).__name__
+            if same is not True:
+                ctx.violation("response-carries-another-value", case, observed={"kind": kind, "same": same}, expected="the value this request's handler returned",
+                              what="a request returned a value other than the one its own handler produced (crossed or altered response)")
+        if res[0] == "exc" and res[1] in ("TimeoutError", "AsyncResultTimeout"):
+            ctx.violation("response-not-delivered-to-its-request", case, observed=res, expected="its response", what="a request timed out although the peer is up: its response never reached it")
+        cls_want = {"boom": "ValueError", "stop": "StopIteration", "genexit": "GeneratorExit"}.get(kind)
+        if res[0] == "exc" and cls_want and res[1] != cls_want:
+            ctx.violation("requester-got-another-exception:" + str(res[1]), case, observed=res, expected=cls_want, what="the exception delivered is not the one the handler raised")
         if res[0] == "value" and want_exc:
             ctx.violation("requester-got-value-instead-of-exception", case, observed=res[0], expected="exception", what="a failing request returned a value")
         if res[0] == "exc" and not want_exc:
@@ -299,6 +323,93 @@ def check_stream(ctx, model, b, expect, raw_reqs, usable, case):
             ctx.tie_broken("correspondence:raw-request", "shape %s seq %s model frames %s impl %s" % (shape, s, exp, got))
 
 
+class _Chan:
+    """a channel whose send can be told to fail; nothing is ever received"""
+    def __init__(self): self.fail, self.closed, self.sent = False, False, []
+    def send(self, data):
+        if self.fail:
+            raise EOFError("injected send failure")
+        self.sent.append(data)
+    def poll(self, timeout): return False
+    def recv(self): raise EOFError("nothing")
+    def close(self): self.closed = True
+    def fileno(self): return -1
+
+
+def real_requester(evs):
+    """the same history on a real Connection: [0, cb, ok] = _async_request with callback cb (send fails unless ok);
+    [1, seq, is_exc] = a MSG_REPLY / MSG_EXCEPTION frame bearing seq is dispatched (known, unknown or already answered)"""
+    from rpyc.core import vinegar
+    ch = _Chan()
+    conn = Connection(rpyc.VoidService(), ch, config={})
+    log = []
+    try:
+        first = None
+        for e in evs:
+            if e[0] == 0:
+                ch.fail = not e[2]
+                try:
+                    conn._async_request(consts.HANDLE_PING, (b"x",), (lambda is_exc, obj, cb=e[1]: log.append([cb, 1 if is_exc else 0])))
+                except EOFError:
+                    pass
+                finally:
+                    ch.fail = False
+            else:
+                if e[2]:
+                    args = vinegar.dump(ValueError, ValueError("x"), None, True, True)
+                    conn._dispatch(brine.dump((consts.MSG_EXCEPTION, e[1], args)))
+                else:
+                    conn._dispatch(brine.dump((consts.MSG_REPLY, e[1], (consts.LABEL_VALUE, 7))))
+        nxt = next(conn._seqcounter)
+        return {"next": nxt, "callbacks": sorted((q, None) for q in conn._request_callbacks), "log": log, "keys": sorted(conn._request_callbacks)}
+    except BaseException as ex:
+        return {"error": "%s: %s" % (type(ex).__name__, ex)}
+    finally:
+        conn._closed = True
+
+
+def local_propagation(ctx, model, facts):
+    """a handler that raises SystemExit / KeyboardInterrupt, under the default configuration and with the two propagate_*_locally switches
+    both off / both on. Property: the requester gets an exception and the connection remains usable. With a switch ON by the user's
+    explicit choice the class is outside what this check demands (the switch exists to opt out); under the DEFAULT configuration it is demanded."""
+    for cfg_name, cfg in (("default", {}), ("off", {"propagate_SystemExit_locally": False, "propagate_KeyboardInterrupt_locally": False}),
+                          ("on", {"propagate_SystemExit_locally": True, "propagate_KeyboardInterrupt_locally": True})):
+        for name in ("KeyboardInterrupt", "SystemExit"):
+            b = Bench(cfg)
+            marked = b.server._config["propagate_%s_locally" % name]
+            try:
+                b.client.root.raise_(1, name)
+                res = ("value", None)
+            except EOFError:
+                res = ("EOFError", None)
+            except BaseException as e:
+                res = ("exc", type(e).__name__)
+            try:
+                b.client.ping("x", timeout=2); usable = True
+            except BaseException:
+                usable = False
+            frames = [(k, q) for who, k, q in b.ledger if who == "srv" and k in (R.MSG_REPLY, R.MSG_EXCEPTION)]
+            reqs = [q for who, k, q in b.ledger if who == "cli" and k == R.MSG_REQUEST]
+            case = {"local_propagation": [cfg_name, name]}
+            ctx.case(("local", cfg_name, name), nontrivial=True, sample={"case": case, "requester": res, "usable": usable, "server_crashes": b.crashes[:1]})
+            ctx.count("handler-raises:%s:%s" % (name, cfg_name))
+            answered = res[0] == "exc" and res[1] == name and usable and not b.crashes
+            if cfg_name != "on" and not answered:
+                ctx.violation("handler-exception-propagated-locally:%s:%s-config" % (name, cfg_name), case, observed={"requester": res, "usable": usable, "server": b.crashes[:1]},
+                              expected="the requester gets %s and the connection remains usable" % name,
+                              what="a handler raising %s under the %s configuration is not answered: the exception leaves the serving loop and the connection ends" % (name, cfg_name))
+            if model:
+                m = model.batch([["serve", facts, [[5, [5] if marked else [4, True]]]]], shards=1)[0][0]
+                ctx.model_traces += 1
+                mframes, minv, mcr = m
+                if bool(mcr) != bool(b.crashes) or (len(mframes) == 1) != (res[0] == "exc"):
+                    ctx.tie_broken("correspondence:local-propagation", "%s model frames %s crashed %s; real requester %s crashes %s" % (case, mframes, mcr, res, b.crashes[:1]))
+            try:
+                b.client.close()
+            except Exception:
+                pass
+
+
 def run(ctx):
     model = C.Model("proto"); model = model if model.available() else None
     r = ctx.rng
@@ -321,21 +432,23 @@ def run(ctx):
             hist.append(evs)
         outs = model.batch([["requester", facts, evs] for evs in hist])
         for evs, m in zip(hist, outs):
-            # independent python reference of Connection's bookkeeping (dict + counter)
-            cbs, log, nxt = {}, [], 0
-            for e in evs:
-                if e[0] == 0:
-                    if e[2]:
-                        cbs[nxt] = e[1]
-                    nxt += 1
-                else:
-                    cb = cbs.pop(e[1], None)
-                    if cb is not None:
-                        log.append([cb, 1 if e[2] else 0])
+            real = real_requester(evs)
             ctx.model_traces += 1
             ctx.case(("req", tuple(map(tuple, evs))), nontrivial=len(evs) > 3)
-            if m[0] != nxt or sorted(map(tuple, m[1])) != sorted(cbs.items()) or [list(x) for x in m[2]] != log:
-                ctx.tie_broken("correspondence:requester", "events %s model %s reference %s" % (evs, m, (nxt, cbs, log)))
+            if real.get("error"):
+                ctx.violation("requester-bookkeeping-raised:" + real["error"].split(":")[0], {"requester_events": evs}, observed=real["error"], expected="no exception",
+                              what="registering a request / dispatching a response (possibly unsolicited or duplicate) raised")
+                continue
+            mine = (m[0], sorted(map(tuple, m[1])), [list(x) for x in m[2]])
+            if mine != (real["next"], real["callbacks"], real["log"]):
+                ctx.tie_broken("correspondence:requester", "events %s model %s real connection %s" % (evs, mine, real))
+            # the property's routing clause on the real connection: a response invokes exactly the callback registered under its number, once
+            seen = set()
+            for cb, _ in real["log"]:
+                if cb in seen:
+                    ctx.violation("callback-invoked-twice", {"requester_events": evs}, observed=real["log"], expected="at most once per request", what="a duplicate response reached a request's callback again")
+                seen.add(cb)
+    local_propagation(ctx, model, facts)
     for i in range(n):
         seed = r.randrange(10**9)
         import random
